@@ -324,7 +324,9 @@ def expected_lines(app, O):
     insts = app.insts
 
     def getv(j):
-        return SA.parse_vtok(O[insts[j].addr])
+        # a parameter that is switched off (rEnabledBy on the parameter itself) holds its fresh value
+        a = insts[j].addr
+        return SA.parse_vtok(O[a]) if a in O else app.canon[j]
     arrays = {}
     for it in insts:
         if it.addr not in O:
